@@ -26,7 +26,7 @@ def calibrate_test(modname, cname, ts, pyver=None):
     import vworld_rt
     import vtrace
     world = vworld_rt.World({}, {})
-    t2 = {k: v for k, v in ts.items() if k != 'actions'}
+    t2 = {k: v for k, v in ts.items() if k not in ('actions', 'kinds_seq')}
     cs = {'name': cname, 'tests': [t2]}
     saved_emit = vworld_rt.emit
     vworld_rt.emit = lambda *a, **k: None
@@ -98,7 +98,9 @@ def compute(events, spec, plan=None, opts=None):
     for e in events:
         k = e['k']
         if k == 'test.setUp':
-            started[e['id']] = started.get(e['id'], 0) + 1
+            # one entry per execution: the kind it had that time (tests with
+            # kinds_seq say so themselves), None = the static kind
+            started.setdefault(e['id'], []).append(e.get('ek'))
         elif k in ('layer.setUp.exit', 'layer.tearDown.exit'):
             if not e.get('ok') and e.get('exc') != 'NotImplementedError':
                 hook = 'setUp' if 'setUp' in k else 'tearDown'
@@ -118,18 +120,20 @@ def compute(events, spec, plan=None, opts=None):
         if any(e['k'] == 'mod.import' and e.get('mod') == mname and
                (parent is None or e['pid'] == parent) for e in events):
             T.import_failures.append(mname)
-    for tid, n in started.items():
+    for tid, kinds in started.items():
         if tid not in tests:
             continue
         ts, layer, m, node = tests[tid]
         ts = dict(ts)
         ts.update(over.get(tid) or {})
+        ts.pop('kinds_seq', None)
         L = layer if layer is not None else 'UNIT'
         d = T.layers.setdefault(L, {'started': {}, 'F': [], 'E': [], 'S': 0,
                                     'U': [], 'X': 0})
-        d['started'][tid] = n
-        c = calibrate_test(m['name'], node['name'], ts)
-        for _ in range(n):
+        d['started'][tid] = len(kinds)
+        for kind in kinds:
+            c = calibrate_test(m['name'], node['name'],
+                               dict(ts, kind=kind) if kind else ts)
             d['F'] += c['F']
             d['E'] += c['E']
             d['U'] += c['U']
